@@ -47,6 +47,10 @@ class Session(BusSession):
         self.method('E', 'AddMatch', [R.S(b"eavesdrop='true'")])
         self.method('Z', 'AddMatch', [R.S(b"type='signal'")])
         self.method('Z', 'AddMatch', [R.S(b"type='method_call'")])
+        # the addressed recipient may itself hold an eavesdropping rule that matches what is addressed to it: it must
+        # still get exactly one copy (it is marked as the addressed recipient before rule recipients are collected)
+        self.method('B', 'AddMatch', [R.S(b"eavesdrop='true',destination='" + self.uname['B'] + b"'")])
+        self.method('C', 'AddMatch', [R.S(b"eavesdrop='true',destination='" + self.uname['C'] + b"'")])
         self.closed_name = self.uname['D']
         self.close_slot('D')
         # small socket buffers for B so that a stalled B really backs up inside the bus
